@@ -47,6 +47,9 @@ pub struct ChildCase {
     /// child paths, child_parents keys, member renames and ghosts fields are indices (`#[child(1)] #[map(0)]`,
     /// `#[child_parents(1: N)]`, `#[ghosts(1@2: {..})]`)
     pub positional: bool,
+    /// `#[child_parents]` written as a default DECOY instruction (wrong types) followed by the real one dedicated to
+    /// each counterpart
+    pub decoy: bool,
     pub tags: Vec<String>,
 }
 
@@ -120,7 +123,11 @@ pub fn gen_child(ctx: &mut Ctx, o: &FlatOpts) -> Option<ChildCase> {
     if ghosts.iter().any(|g| !g.0.is_empty() && !members.iter().any(|m| m.node == g.0)) {
         tags.push("ghost-only-node".into());
     }
-    let mut case = ChildCase { nodes, members, ghosts, positional: o.positional, tags: vec![] };
+    let decoy = ctx.flag();
+    if decoy {
+        tags.push("child_parents-decoy".into());
+    }
+    let mut case = ChildCase { nodes, members, ghosts, positional: o.positional, decoy, tags: vec![] };
     if o.positional {
         tags.push("positional".into());
         tags.push(if case.pos_ordered() { "pos-ordered".into() } else { "pos-unordered".into() });
@@ -225,7 +232,16 @@ impl ChildCase {
             it.attrs.push(Instr::new("try_map", None, "Tf, Er"));
             it.attrs.push(Instr::new("try_into_existing", None, "Tf, Er"));
         }
-        it.attrs.push(Instr::new("child_parents", None, &self.nodes.iter().map(|n| format!("{}: {}", self.path_text(n), ty_of(n))).collect::<Vec<_>>().join(", ")));
+        let real = self.nodes.iter().map(|n| format!("{}: {}", self.path_text(n), ty_of(n))).collect::<Vec<_>>().join(", ");
+        if self.decoy {
+            it.attrs.push(Instr::new("child_parents", None, &self.nodes.iter().map(|n| format!("{}: Decoy_{}", self.path_text(n), ty_of(n))).collect::<Vec<_>>().join(", ")));
+            it.attrs.push(Instr::new("child_parents", Some("T"), &real));
+            if both {
+                it.attrs.push(Instr::new("child_parents", Some("Tf"), &real));
+            }
+        } else {
+            it.attrs.push(Instr::new("child_parents", None, &real));
+        }
         if !self.ghosts.is_empty() {
             it.attrs.push(Instr::new("ghosts", None, &self.ghosts.iter().map(|g| if g.0.is_empty() { format!("{}: {{ {} }}", self.ghost_field(g), g.2) } else { format!("{}@{}: {{ {} }}", self.path_text(&g.0), self.ghost_field(g), g.2) }).collect::<Vec<_>>().join(", ")));
         }
